@@ -270,6 +270,17 @@ def string_cases(rng, fill):
     for s in samples:
         cases.append(lit_case("str", "single", "'%s'" % s, ACCEPT, ["str", s], vtype="STRING"))
         cases.append(lit_case("str", "double", '"%s"' % s, ACCEPT, ["str", s], vtype="WSTRING"))
+    # the other kind of quote mark is an ordinary character: at the start, at the end, alone, doubled, everywhere
+    for q, other, vt, cellq in (("'", '"', "STRING", "single"), ('"', "'", "WSTRING", "double")):
+        shapes = [other, other * 2, other + "x", "x" + other, other + "x" + other, other + " " + other, "6" + other,
+                  other + "quoted" + other, " " + other, other + " "]
+        for _ in range(10 + fill // 8):
+            body = "".join(rng.choice(alphabet + [other] * 12) for _ in range(rng.randint(1, 8)))
+            shapes.append(rng.choice(["", other]) + body + rng.choice(["", other]))
+        for s in shapes:
+            cases.append(lit_case("str", cellq + ".other-quote", q + s + q, ACCEPT, ["str", s], vtype=vt))
+        cases.append(lit_case("str", "typed." + cellq + ".other-quote", "%s#%s%sab%s%s" % (vt, q, other, other, q), ACCEPT,
+                              ["str", other + "ab" + other], vtype=vt))
     cases.append(lit_case("str", "single.with-dquote", "'a\"b'", ACCEPT, ["str", 'a"b'], vtype="STRING"))
     cases.append(lit_case("str", "double.with-squote", "\"a'b\"", ACCEPT, ["str", "a'b"], vtype="WSTRING"))
     cases.append(lit_case("str", "typed.single", "STRING#'ab'", ACCEPT, ["str", "ab"], vtype="STRING"))
@@ -288,7 +299,7 @@ def address_cases(rng, fill):
     comps_pool = [0, 1, 9, 10, 99, 100, 255, 65535, 65536, U32 - 1, U32, U32 + 1, (1 << 64), 10 ** 20, 7]
     for loc in "IQM":
         for size in ("", "X", "B", "W", "D", "L"):
-            for n in (1, 2, 3):
+            for n in (1, 2, 3, 4, 5, 6):
                 reps = 3 if n > 1 else len(comps_pool)
                 for r in range(reps):
                     comps = [comps_pool[r]] if n == 1 else [rng.choice(comps_pool) for _ in range(n)]
@@ -304,7 +315,7 @@ def address_cases(rng, fill):
         loc = rng.choice("IQM")
         size = rng.choice(["", "X", "B", "W", "D", "L"])
         comps = [rng.choice([rng.randint(0, 9), rng.randint(0, 99999), rng.randint(U32 - 5, U32 + 5)])
-                 for _ in range(rng.randint(1, 3))]
+                 for _ in range(rng.choice([1, 2, 3, 3, 4, 5, 8]))]
         ok = all(c <= U32 for c in comps)
         cases.append(lit_case("addr", "%s.%s.rand" % (loc, size or "nil"), "%" + loc + size + ".".join(map(str, comps)),
                               ACCEPT if ok else REJECT, ["direct", loc, size or "Nil", comps],
@@ -442,7 +453,7 @@ def run(tier, seed):
                 "2^128 each +-1, 10^40) x underscore position x sign x type prefix; reals whole x fraction x exponent; "
                 "durations unit x boundary/fractional value x prefix x sign x unit case, compound durations; TOD/date/DT "
                 "each field at 0, in range, max, max+1, over (calendar-aware); strings over printable ASCII, escapes, "
-                "non-ASCII; addresses prefix x size x 1-3 components x digit count; each literal as initial value and "
+                "non-ASCII; addresses prefix x size x 1-6 components x digit count; each literal as initial value and "
                 "inside an expression; distinct = grid cells whose every literal agreed with the reference evaluation",
         "assumptions": ["representable = u128 integer, finite f64, i64 seconds, year 0..9999, u32 address component",
                         "not decided (either accepted): underflow of a real to zero, duration fractions that are not a "
